@@ -285,6 +285,24 @@ func runC17(seed int64, tier string, sc *Script) map[string]any {
 			}
 		}
 	}
+	// Retry-After: what ExponentialBackoff (jitter 0, hence deterministic) answers for a response
+	sc.Case("retry-after")
+	sc.NonTrivial()
+	for _, status := range []int{429, 503, 200, 408} {
+		for _, ra := range []string{"none", "0", "1", "2", "5", "-3", "abc", "1.5", "3600", "007", "1s", "-0"} {
+			for _, attempt := range []int{0, 1, 3} {
+				base, factor := 250*time.Millisecond, 2.0
+				resp := &http.Response{StatusCode: status, Header: http.Header{}}
+				if ra != "none" {
+					resp.Header.Set("Retry-After", ra)
+				}
+				d := retry.ExponentialBackoff(base, factor, 0)(attempt, resp)
+				expo := int64(float64(base) * math.Pow(factor, float64(attempt)))
+				sc.Op(fmt.Sprint(int64(d)), "rt retryafter status=%d ra=%s attempt=%d expo=%d", status, ra, attempt, expo)
+				evals++
+			}
+		}
+	}
 	sc.Extra["evaluations"] = evals
 	return nil
 }
